@@ -97,6 +97,10 @@ func ResolveRelativeFinalSource(a, b FinalSource) (FinalSource, error) {
 	case LocalSource:
 		aRaw := a.relPath
 		new := path.Join(aRaw, bRaw)
+		// "." and ".." are written with a trailing slash in canonical form.
+		if new == "." || new == ".." {
+			new += "/"
+		}
 		if !looksLikeLocalSource(new) {
 			new = "./" + new // preserve LocalSource's prefix invariant
 		}
